@@ -151,6 +151,49 @@ func (c *call) HasUndefined() bool {
 		if strings.Index(c.Args[i].String(), "invalid type") >= 0 {
 			return true
 		}
+		if containsInvalid(c.Args[i], map[*types.Named]bool{}) {
+			return true
+		}
+	}
+	return false
+}
+
+// containsInvalid reports whether an undeclared type occurs anywhere inside typ, also below named
+// types (a field of a struct, an element, a key), where the printed form of typ does not show it.
+func containsInvalid(typ types.Type, seen map[*types.Named]bool) bool {
+	switch t := typ.(type) {
+	case *types.Basic:
+		return t.Kind() == types.Invalid
+	case *types.Named:
+		if seen[t] {
+			return false
+		}
+		seen[t] = true
+		return containsInvalid(t.Underlying(), seen)
+	case *types.Pointer:
+		return containsInvalid(t.Elem(), seen)
+	case *types.Slice:
+		return containsInvalid(t.Elem(), seen)
+	case *types.Array:
+		return containsInvalid(t.Elem(), seen)
+	case *types.Chan:
+		return containsInvalid(t.Elem(), seen)
+	case *types.Map:
+		return containsInvalid(t.Key(), seen) || containsInvalid(t.Elem(), seen)
+	case *types.Struct:
+		for i := 0; i < t.NumFields(); i++ {
+			if containsInvalid(t.Field(i).Type(), seen) {
+				return true
+			}
+		}
+	case *types.Tuple:
+		for i := 0; i < t.Len(); i++ {
+			if containsInvalid(t.At(i).Type(), seen) {
+				return true
+			}
+		}
+	case *types.Signature:
+		return containsInvalid(t.Params(), seen) || containsInvalid(t.Results(), seen)
 	}
 	return false
 }
